@@ -41,7 +41,8 @@ def shards(tier, seed):
         n_sh, n, budget = 16, 500, 420
     return [{"name": f"in{i}", "threads": 2, "timeout": budget * 4 + 300,
              "params": {"seed": seed, "shard": i, "n": n, "budget_s": budget}}
-            for i in range(n_sh)]
+            for i in range(n_sh)] + [{"name": "corpus", "threads": 1, "timeout": 600,
+                                      "params": {"kind": "corpus"}}]
 
 
 def stats_of(res):
@@ -265,15 +266,22 @@ def readonly_case(rec, seedt):
         rec.violation(f"raises:{type(e).__name__}", f"read-only input: {type(e).__name__}: {e}")
 
 
-def finiteness_case(rec, seedt):
+def finiteness_case(rec, seedt, fixed=None):
     rng = gen.rng_for(*seedt)
     N = int(rng.choice([8, 64, 900, int(rng.integers(9, 400))]))
     cross = bool(rng.random() < 0.7)
+    if fixed is not None:
+        N, cross = fixed["N"], fixed["cross"]
     kind = str(rng.choice(["zeros", "const", "one-zero-channel", "identical", "white", "tiny",
-                           "huge", "impulse"]))
+                           "huge", "impulse", "overflow"])) if fixed is None else fixed["rec"]
+    amp = 1.0
+    if kind == "overflow":
+        # finite samples whose POWER is not representable in float64 (|x|^2 L > 1.8e308)
+        amp = float(rng.choice([1e153, 1e160, 1e200, 1e250, 1e300])) if fixed is None else fixed["amp"]
     mk = {"zeros": lambda: np.zeros(N), "const": lambda: np.full(N, 3.25),
           "white": lambda: rng.standard_normal(N), "tiny": lambda: 1e-60 * rng.standard_normal(N),
-          "huge": lambda: 1e60 * rng.standard_normal(N)}
+          "huge": lambda: 1e60 * rng.standard_normal(N),
+          "overflow": lambda: amp * rng.uniform(0.5, 1.0, size=N) * rng.choice([-1, 1], size=N)}
     if kind in mk:
         x = mk[kind]()
         y = mk[kind]()
@@ -290,14 +298,21 @@ def finiteness_case(rec, seedt):
         y = np.roll(x, 1)
     data = np.vstack([x, y]) if cross else x
     kw, single = common_kw(rng, N)
+    if fixed is not None:
+        kw.update(order=fixed["order"], backend=fixed["backend"], scheduler="ltf", Jdes=10,
+                  Kdes=5, olap=0.5, win="hann")
+        kw.pop("psll", None)
+        single = (0.1, min(N, 64)) if fixed["single"] else None
     desc = {"kind": "finite", "seed": list(seedt), "N": N, "cross": cross, "rec": kind,
-            "order": kw["order"], "backend": kw["backend"], "single": single is not None}
+            "order": kw["order"], "backend": kw["backend"], "single": single is not None,
+            "amp": amp, "fixed": fixed}
     rec.case(desc, nontrivial=True)
     res = api.attempt(rec, lambda: run_api(data, 1.0, kw, single), "analysis of a finite record")
     if res is None:
         return
     rec.count("finiteness_results")
     coh = np.asarray(res.coh) if cross else None
+    raw_finite = all(np.all(np.isfinite(np.asarray(getattr(res, k)))) for k in ("XX", "YY", "XY", "M2"))
     for nm in DENSITY_LIKE:
         v = getattr(res, nm)
         if v is None:
@@ -305,9 +320,22 @@ def finiteness_case(rec, seedt):
         v = np.asarray(v)
         if not np.all(np.isfinite(v)):
             j = int(np.argmax(~np.isfinite(v)))
-            rec.violation("non-finite-estimate",
-                          f"{nm}[{j}]={v[j]!r} for a finite {kind} record (N={N}, cross={cross}, "
-                          f"order {kw['order']}, {kw['backend']}, L={int(res.L[j])}, K={int(res.K[j])})")
+            key = "non-finite-estimate"
+            if kind == "overflow":
+                # mechanisms recorded as known findings (float64 cannot hold the power):
+                if single is not None and not raw_finite:
+                    key = "single-bin-overflow-unsanitised"
+                elif raw_finite:
+                    key = "overflow-edge-density-scaling"
+            rec.violation(key,
+                          f"{nm}[{j}]={v[j]!r} for a finite {kind} record (amp {amp:g}, N={N}, "
+                          f"cross={cross}, order {kw['order']}, {kw['backend']}, "
+                          f"{'single-bin' if single is not None else 'compute()'}, raw statistics "
+                          f"finite={raw_finite}, L={int(res.L[j])}, K={int(res.K[j])})")
+            if key != "non-finite-estimate":
+                break
+    if kind == "overflow":
+        return  # error bars of unrepresentable estimates carry no statement
     v = getattr(res, "cf_db")
     if v is not None:
         v, cf = np.asarray(v), np.asarray(res.cf)
@@ -410,7 +438,20 @@ def helper_case(rec, seedt):
             break
 
 
+CORPUS = [
+    {"rec": "overflow", "amp": 1e200, "N": 300, "cross": True, "order": 0, "backend": "numba",
+     "single": True},
+    {"rec": "overflow", "amp": 1e153, "N": 300, "cross": True, "order": 0, "backend": "numpy",
+     "single": False},
+]
+
+
 def run_shard(params, rec):
+    if params.get("kind") == "corpus":
+        for i, c in enumerate(CORPUS):
+            finiteness_case(rec, [0, "corpus", i], fixed=c)
+            rec.count("corpus_replayed")
+        return
     t0 = time.time()
     seed, sh = params["seed"], params["shard"]
     for i in range(params["n"]):
@@ -429,5 +470,7 @@ def run_shard(params, rec):
 
 
 def replay(case, rec):
+    if case.get("kind") == "finite" and case.get("fixed"):
+        return finiteness_case(rec, case["seed"], fixed=case["fixed"])
     {"nonfinite": nonfinite_case, "layout": layout_case, "readonly": readonly_case,
      "finite": finiteness_case, "helpers": helper_case, "writeguard": writeguard_case}[case["kind"]](rec, case["seed"])
